@@ -44,7 +44,47 @@ func main() {
 		fmt.Fprintln(os.Stderr, "tier must be quick or thorough")
 		os.Exit(2)
 	}
-	os.Exit(f(tier, replay))
+	code := f(tier, replay)
+	cleanupPublicSelf()
+	os.Exit(code)
+}
+
+var (
+	publicOnce sync.Once
+	publicDir  string
+	publicBin  string
+)
+
+// publicSelf returns a copy of this executable in a world-accessible directory, for children that run as uid 65534
+// (the harness itself may live under a directory nobody cannot traverse).
+func publicSelf() string {
+	publicOnce.Do(func() {
+		self, _ := os.Executable()
+		publicBin = self
+		d, err := os.MkdirTemp("", "vcheck-pub")
+		if err != nil {
+			return
+		}
+		os.Chmod(d, 0o755)
+		b, err := os.ReadFile(self)
+		if err != nil {
+			os.RemoveAll(d)
+			return
+		}
+		p := d + "/vcheck"
+		if os.WriteFile(p, b, 0o755) != nil {
+			os.RemoveAll(d)
+			return
+		}
+		publicDir, publicBin = d, p
+	})
+	return publicBin
+}
+
+func cleanupPublicSelf() {
+	if publicDir != "" {
+		os.RemoveAll(publicDir)
+	}
 }
 
 // parallelFor runs fn(i) for i in [0,n) on all cores; order of hand-out is ascending.
